@@ -197,6 +197,35 @@ theorem char_reject (c : Nat) (hs : isScalar c = true) (hc : ¬ RawChar c) :
   rw [encodeChar_ascii c hlt]
   exact char_reject_ascii c hlt (fun h => hc ⟨hs, by omega⟩)
 
+/-- C11.l'  `lit_reject` (characters): a character literal whose closing apostrophe is missing — the text ends
+after the character — is rejected with `BadCharacter`, for every scalar value that may be written raw. -/
+theorem char_unclosed (c : Nat) (hc : RawChar c) :
+    tokens (39 :: encodeChar c) = .ok ⟨[], some ⟨1, 1, .badCharacter⟩, 1, 1⟩ := by
+  obtain ⟨hs, hadm⟩ := hc
+  have hrest : Utf8 (encodeChar c) := by simpa using utf8_encodeChar c hs Utf8.nil
+  have hu : Utf8 ((39 : UInt8) :: encodeChar c) := utf8_ascii_cons 39 (by decide) hrest
+  have hnext : nextToken ⟨39 :: encodeChar c, false, 1, 1⟩ = .err ⟨1, 1, .badCharacter⟩ ⟨[], false, 1, 1⟩ := by
+    rw [nextToken_doNext _ 39 (encodeChar c) rfl (by decide) (by decide), doNext_char _ 39 (encodeChar c) rfl (by decide)]
+    unfold lexChar
+    have hsl : sliceFrom ((39 : UInt8) :: encodeChar c) 1 = some (encodeChar c) := by
+      have := sliceFrom_split [(39 : UInt8)] (encodeChar c) (utf8_head? hrest)
+      simpa using this
+    simp only [hsl]
+    have hbody : lexCharBody false (encodeChar c) = .err false := by
+      unfold lexCharBody lexCharFirst
+      have hd := decodeChar_encodeChar c hs []
+      rw [List.append_nil] at hd
+      rw [hd]
+      simp only
+      have h92 : (c == 92) = false := by simp; omega
+      have hok : (c == 9 || (decide (32 ≤ c) && decide (c ≤ 126)) || decide (128 ≤ c)) = true := by
+        simp; omega
+      simp only [h92, Bool.false_eq_true, if_false, hok, if_true]
+      simp [decodeChar]
+    rw [hbody]
+    simp [fail, State.clear]
+  exact tokens_error _ hu _ _ hnext
+
 /-- C11.m `str_lit`  **Every string literal.** A body is any list of items, each either a scalar value written
 raw (`RawStrChar`: TAB, printable ASCII other than `"` and `\`, anything from U+0080 on; UTF-8 encoded), or one
 of the escapes `\0 \t \n \r \" \' \\`, or `\u{hex}` with 1–6 hexadecimal digits of either case that denote
